@@ -10,3 +10,9 @@ if [ -f rust/examples/demo_mut.rs ]; then
   echo "== demo WITHOUT change"; CARGO_NET_OFFLINE=true cargo run --offline -q -p bplustree --example demo_mut 2>&1 | tail -2; echo "exit=${PIPESTATUS[0]}"
   git apply $P
 fi
+if [ -f OUT/demo.py ]; then
+  echo "== python demo WITH change"; python3 OUT/demo.py 2>&1 | tail -3; echo "exit=${PIPESTATUS[0]}"
+  git apply -R $P || { echo "cannot revert"; exit 2; }
+  echo "== python demo WITHOUT change"; python3 OUT/demo.py 2>&1 | tail -3; echo "exit=${PIPESTATUS[0]}"
+  git apply $P
+fi
